@@ -262,12 +262,16 @@ def run(ctx: core.Ctx):
                 ctx.extra["loads_table_first_disagreement"] = {"n": len(qs), "impl_rows": len(rows), "model_rows": len(model), "impl_first": rows[:2], "model_first": model[:2]}
     ctx.count("loads_table_lists", len(lists))
     # g-function table on a real GHE: strictly increasing time, same rows as the curve used by simulate
-    n_ghe = 1 if ctx.tier == "quick" else 6
+    n_ghe = 2 if ctx.tier == "quick" else 6
     for j in range(n_ghe):
         phys = ghelib.default_physics() if j == 0 else ghelib.random_physics(rng)
         hgt = phys["borehole"][0]
         ghe = ghelib.build_ghe(phys, "SINGLEUTUBE", [(0.0, 0.0), (5.0, 0.0), (0.0, 5.0)], ghelib.atlanta_loads(), 12,
                                max_h=hgt + 30, min_h=max(20.0, hgt - 30), heights=[hgt])
+        if j % 2 == 1:
+            # a borehole whose radius differs from the radius the g-function library was computed for: the table
+            # must carry the same radius correction as the curve the simulation uses
+            ghe.bhe.b.r_b = float(ghe.bhe.b.r_b) * 0.93
         d2 = types.SimpleNamespace(ghe=ghe)
         grows = OutputManager.get_g_function_data(d2)
         g, gb = ghe.grab_g_function(ghe.B_spacing / float(ghe.bhe.b.H))
